@@ -455,16 +455,10 @@ theorem kwAfter_flags (dia : Dialect) (s : Str)
       · exact Or.inl (Or.inl (Or.inl (Or.inl g1)))
 
 
-/-- the one shape of whitespace-delimited value the CURRENT scanner does not end at a closing bracket: `;` followed by
-    data_ / save_ (any case) — open finding F33 -/
-def semiKwFree (s : Str) : Bool :=
-  match s with
-  | [] => true
-  | c :: t => !(c == 59 && (startsWithCI [100, 97, 116, 97, 95] t || startsWithCI [115, 97, 118, 101, 95] t))
-
+/-- whitespace-delimited value directly followed by a closing bracket or brace (CIF 2.0) -/
 theorem stepTok_bare_close (dia : Dialect) (hdia : dia = .cif2) (s : Str) (dc : Nat) (hdc : dc = 93 ∨ dc = 125) (rest : Str)
     (line col : Nat) (pol : Policy) (log : List Report)
-    (hok : bareOk dia s = true) (hsemi : semiOk s col = true) (hkw : semiKwFree s = true) :
+    (hok : bareOk dia s = true) (hsemi : semiOk s col = true) :
     ∃ c r, s = c :: r ∧
     stepTok dia true c (r ++ dc :: rest) line col pol log
       = .ok (.tok ⟨.value, s, line, col + colAdd s⟩ ⟨dc :: rest, line, col + colAdd s⟩) log := by
@@ -512,25 +506,17 @@ theorem stepTok_bare_close (dia : Dialect) (hdia : dia = .cif2) (s : Str) (dc : 
       subst hc59
       have hcol : ¬ col + 1 = 1 := by
         simp [semiOk] at hsemi; omega
-      simp only [hs, if_true, hcol, if_false]
-      have hunits' : okUnits dia none r = true := by
-        have := (ok_step dia none 59 r [] hunits trivial 0 0 acceptAll []).2.1
-        simpa [nextPend, isLeadU] using this
-      have hnws' : r.all (fun x => !isWs x) = true := by
-        simp only [List.all_cons, Bool.and_eq_true] at hnws; exact hnws.2
-      have hbr' : dia = .cif2 → r.all (fun x => !(x == 91 || x == 93 || x == 123 || x == 125)) = true := by
-        intro hd; have := hbr2 hd; simp only [List.all_cons, Bool.and_eq_true] at this; exact this.2
-      have hfl : ((!(kwAfter .cif2 0 true true r).2.1 && !(kwAfter .cif2 0 true true r).2.2)
-          || decide ((kwAfter .cif2 0 true true r).1 < 5)) = true := by
+      simp only [hs, if_true, hcol, if_false, Nat.add_sub_cancel]
+      have hfl : ((!(kwAfter .cif2 0 true true (59 :: r)).2.1 && !(kwAfter .cif2 0 true true (59 :: r)).2.2)
+          || decide ((kwAfter .cif2 0 true true (59 :: r)).1 < 5)) = true := by
         apply kwAfter_flags
-        simpa [semiKwFree] using hkw
-      have hscan := scanUnquoted_close dc hdc rest line pol log r none [59] (col + 1) 0 true true (hdia ▸ hunits') trivial hnws' (hbr' hdia) hfl
+        simp only [isReservedWord, Bool.or_eq_false_iff] at hres
+        exact ⟨hres.1.1.1.1, hres.1.1.1.2⟩
+      have hscan := scanUnquoted_close dc hdc rest line pol log (59 :: r) none [] col 0 true true (hdia ▸ hunits) trivial hnws (hbr2 hdia) hfl
       rw [← hdia] at hscan
-      simp only [Option.isSome_none] at hscan
+      simp only [Option.isSome_none, List.cons_append] at hscan
       rw [L.bind_ok hscan]
-      have : (r.reverse ++ [59]).reverse = 59 :: r := by simp
-      simp only [this, finishUnquoted, hcv, L.pure_apply, mkTok, colAdd_cons]
-      simp [isTrailU, Nat.add_assoc]
+      simp [finishUnquoted, hcv, mkTok]
     · simp only [hs, if_false, Nat.add_sub_cancel]
       have hfl : ((!(kwAfter .cif2 0 true true (c :: r)).2.1 && !(kwAfter .cif2 0 true true (c :: r)).2.2)
           || decide ((kwAfter .cif2 0 true true (c :: r)).1 < 5)) = true := by
